@@ -5,6 +5,7 @@ var stdAssumptions = []string{
 	"no reflection- or cgo-driven calls into the module (timelib's C side is outside the analysed program)",
 	"frozen tables in the checker (one symbol and one reason per entry) were confirmed by reading the code",
 	"nil dereferences, stack exhaustion and out-of-memory are outside every rule",
+	"rules about the shape of an anchored function compare it, after renaming / inlining / canonicalisation (DESIGN.md 9.4), with an expected normal form: a behaviour-preserving restructuring outside that layer's reach is reported as undecided or violated and has to be re-confirmed by reading (known instances: DESIGN.md 12.4)",
 }
 
 // thoroughExtra: rules added in the thorough tier — the rules that establish the lemmas a property's own rules consume
